@@ -23,6 +23,9 @@ def run(ctx):
             ctx.exhaustive = not ctx.quick()  # thorough also replays the complete BFS set of depth 2
         allb = ctx.behaviours("state", "Gen_WorldState", "Gen_WorldState.cfg", constants={"MaxOps": wl, "Depth": wl},
                               simulate="num=%d" % ctx.pick(600, 1500), depth=wl + 1, seed=ctx.seed, timeout=ctx.pick(900, 3000))
+        # directed: EVERY history of 4 calls on one account with one storage key and one snapshot slot (contains
+        # snapshot-before-the-first-storage-write / write / Reset / read for an absent and for a balance-only account)
+        allb += ctx.behaviours("state", "Gen_WorldState", "Gen_WorldState_dir.cfg", timeout=1800)
         if not ctx.quick():
             allb += ctx.behaviours("state", "Gen_WorldState", "Gen_WorldState.cfg", constants={"MaxOps": 2, "Depth": 2,
                                    "Accts": '{"a", "b"}', "MaxSnaps": 1}, timeout=1800)
@@ -41,4 +44,4 @@ def run(ctx):
              "and through every snapshot, hashes of equal contents are compared; distinct by call sequence; "
              "non-trivial if it contains a reset, reload or clear-cache" % wl,
         assumptions=["MapDB backend", "accounts without deposits or API info; contract accounts via InitContractAccount with pending/current contract code (2 code ids) and the blocked state bit",
-                     "no validator/extension/BTP state (nil)", "sequential use of one world state"])
+                     "no validator/extension/BTP state (nil)", "sequential use of one world state", "IsEmpty of a mutable account object is compared in one direction only (an object that once had storage keeps its store object)"])
